@@ -187,7 +187,7 @@ func runTAB01(p *Prog, r *RuleRun) {
 	cmp := map[string]bool{"BaseIndex": true, "ID": true, "Codec": true}
 	nSuccess := 0
 	vspec := &OrdSpec{Name: "header-validate",
-		Call:  func(cx *Ctx, ci ssa.CallInstruction) CallInfo { return CallInfo{Primitive: true, Infallible: false} },
+		Call: func(cx *Ctx, ci ssa.CallInstruction) CallInfo { return CallInfo{Primitive: true, Infallible: false} },
 		Value: func(cx *Ctx, v ssa.Value, f *Fact) (AV, bool) {
 			var base ssa.Value
 			var fv *types.Var
